@@ -277,7 +277,7 @@ fn run_ram(r: &mut Rng, n: u64) {
     for i in 0..n {
         // a bundle laid out from an abstract one (module table with optional modules, non-empty startup code, any physical order), then possibly corrupted
         let count = r.below(5) as usize; let startup: Vec<u8> = (0..1 + r.below(4)).map(|k| [b'S', 0xff, 0, b'\n'][k as usize % 4]).collect();
-        let mods: Vec<Option<Vec<u8>>> = (0..count).map(|_| if r.below(3) == 0 { None } else { Some((0..r.below(4)).map(|k| [b'a', 0xfe, 0x80, b'z'][k as usize]).collect()) }).collect();
+        let mods: Vec<Option<Vec<u8>>> = (0..count).map(|_| if r.below(3) == 0 { None } else { Some((0..r.below(5)).map(|_| [b'a', 0xfe, 0x80, b'z', 0x00, 0x00, b'\n'][r.below(7) as usize]).collect()) }).collect();
         // physical order of the module bodies: a random permutation
         let mut order: Vec<usize> = (0..count).collect(); for k in (1..count).rev() { let j = r.below(k as u64 + 1) as usize; order.swap(k, j); }
         let mut offs = vec![0u32; count]; let mut data = vec![]; let mut off = startup.len() as u32;
@@ -303,7 +303,18 @@ fn run_ram(r: &mut Rng, n: u64) {
         println!("r{}\tram\t{}\t{}\t{}\t{}", i, hex(&v), if corrupt < 4 { 1 } else { 0 }, abstract_descr, out);
     }
 }
+fn locate_case(id: &str, text: &[u8]) {
+    let out = match catch_unwind(AssertUnwindSafe(|| sourcemap::locate_sourcemap_reference_slice(text))) { Ok(Ok(None)) => "none".into(), Ok(Ok(Some(sourcemap::SourceMapRef::Ref(u)))) => format!("ref {}", hex(u.as_bytes())), Ok(Ok(Some(sourcemap::SourceMapRef::LegacyRef(u)))) => format!("legacy {}", hex(u.as_bytes())), Ok(Err(_)) => "err".into(), Err(_) => "panic".into() };
+    println!("{}\tlocate\t{}\t{}", id, hex(text), out);
+}
 fn run_locate(r: &mut Rng, n: u64) {
+    // explicit: the reference line starts shortly before / at / after a multiple of 8192 bytes, after one long line or many short ones
+    let mut k = 0;
+    for mult in [1usize, 2] { for d in (0..26).chain([40, 100]) { for long_line in [true, false] {
+        let start = mult * 8192 - d; let mut t: Vec<u8> = vec![];
+        if long_line { t.extend(std::iter::repeat(b'x').take(start - 1)); t.push(b'\n'); } else { while t.len() + 8 <= start { t.extend(b"var a;\r\n"); } while t.len() + 1 < start { t.push(b';'); } if t.len() < start { t.push(b'\n'); } }
+        t.extend(if (d + mult) % 2 == 0 { &b"//# sourceMappingURL=big.map"[..] } else { &b"//@ sourceMappingURL=old.map\n//# sourceMappingURL=second.map\n"[..] });
+        if d % 5 != 0 || !long_line { locate_case(&format!("x{}", k), &t); } k += 1; } } }
     let parts = ["foo();", "", "//# sourceMappingURL=a.map", "//@ sourceMappingURL=b.map", " //# sourceMappingURL=c.map", "x //# sourceMappingURL=d.map", "//# sourceMappingURL=", "//# sourceMappingURL=  e.map \t", "//#sourceMappingURL=f.map", "//# sourcemappingurl=h", "//# sourceMappingURL=\u{a0}g.map\u{a0}"];
     for i in 0..n {
         let k = r.below(5); let mut text = String::new();
@@ -331,7 +342,8 @@ fn own_b64(data: &[u8]) -> String {
 fn run_hdr(r: &mut Rng, n: u64) {
     let bodies: Vec<&[u8]> = vec![br#"{"version":3,"sources":["a"],"names":[],"mappings":"AAAA"}"#, br#"{"version":3,"sections":[{"offset":{"line":0,"column":0},"map":{"version":3,"sources":["a"],"names":[],"mappings":"AAAA"}}]}"#,
         br#"{"version":3,"sources":["a"],"names":[],"mappings":"AAAA","x_facebook_sources":[null]}"#, br#"{"file":"x"}"#, br#"[1,2]"#];
-    let headers: Vec<&[u8]> = vec![b"", b")]}'\n", b")]}'\r\n", b")]}'\r", b")]}'", b")\n", b"]\r\r\n", b"}garbage)]}\n", b"'\n\n", b")]}\rx\n", b"x)]}\n", b")\r\n\r\n", b")]}'\r\r\n", b"'\r", b"]\n\r\n", b"}{\n"];
+    let headers: Vec<&[u8]> = vec![b"", b")]}'\n", b")]}'\r\n", b")]}'\r", b")]}'", b")\n", b"]\r\r\n", b"}garbage)]}\n", b"'\n\n", b")]}\rx\n", b"x)]}\n", b")\r\n\r\n", b")]}'\r\r\n", b"'\r", b"]\n\r\n", b"}{\n",
+        b")]}'\r)]}'\n", b")\r]\n", b"]\r}\r\n", b"'\r'\r'\n", b")\r\r", b"}\r)"];
     for i in 0..n {
         let body = bodies[if r.below(3) == 0 { r.below(bodies.len() as u64) as usize } else { 0 }];
         let mut doc = headers[r.below(headers.len() as u64) as usize].to_vec(); let cut = [0usize, 0, 0, 1, 7][r.below(5) as usize].min(body.len()); doc.extend_from_slice(&body[..body.len() - cut]);
@@ -384,6 +396,17 @@ fn run_index(r: &mut Rng, n: u64) {
 }
 fn run_fname(r: &mut Rng, n: u64) { run_fname_gen(r, n, false) }
 fn run_fname_gen(r: &mut Rng, n: u64, any_col: bool) {
+    if !any_col {
+        // explicit: `function NAME` exactly d tokens behind the queried token, d around the window of 128 (tokens on one line and across two lines)
+        for d in 120..136u32 { for two_lines in [false, true] {
+            let mut text = String::from("function n"); let mut toks = vec![Tok { dl: 0, dc: 0, sl: 0, sc: 0, src: 0, name: 1, range: false }, Tok { dl: 0, dc: 9, sl: 0, sc: 0, src: 0, name: 2, range: false }];
+            let mut line = 0u32; let mut col = 10u32;
+            for j in 0..d { if two_lines && j == d / 2 { text.push('\n'); line = 1; col = 0; } text.push_str(" a"); col += 2; toks.push(Tok { dl: line, dc: col - 1, sl: 0, sc: 0, src: 0, name: if j % 3 == 0 { 3 } else { !0 }, range: false }); }
+            let sv = sourcemap::SourceView::new(text.clone().into()); let sm = build_map(1, 4, &toks); let sorted: Vec<Tok> = sm.tokens().map(|t| raw_of(&t)).collect(); let ti = sorted.len() - 1;
+            let out = match catch_unwind(AssertUnwindSafe(|| sv.get_original_function_name(sm.get_token(ti).unwrap(), "n").map(|s| s.to_string()))) { Ok(Some(s)) => s.trim_start_matches('n').to_string(), Ok(None) => "none".into(), Err(_) => "panic".into() };
+            println!("w{}_{}\tfname\t{}\t{}\t{}\t{}\t{}", d, two_lines as u8, hex(text.as_bytes()), toks_str(&sorted), ti, hex(b"n"), out);
+        } }
+    }
     let words = ["function", "a", "ab", "\u{e9}", "a\u{e9}", "\u{1D49C}x", "$", "_1", "x\u{200d}y", "(", ")", "{", "}", "\u{1F44C}", "1", " ", "\t", "\u{a0}", ";", "function", "function", "function", "var", ","];
     let cands = ["a", "ab", "\u{e9}", "a\u{e9}", "function", "\u{1D49C}x", "x\u{200d}y", "1a", "a b", "", "_1", "$"];
     for i in 0..n {
